@@ -197,7 +197,7 @@ var reEP = regexp.MustCompile(`ep-(\d+)-(tcp|udp)`)
 // c12Run runs one fault assignment against the real client and returns the observed result and the
 // attempts log.
 func c12Run(tcpBeh, udpBeh []string, limit int) (res string, attempts []string, reqLen int) {
-	realm := "TEST.GOKRB5"
+	realm := "Test.GoKrb5" // realm names are case sensitive: the configured name is looked up as it is written
 	var logMu sync.Mutex
 	var kdcs []*scriptedKDC
 	conf := fmt.Sprintf("[libdefaults]\n default_realm = %s\n dns_lookup_kdc = false\n udp_preference_limit = %d\n[realms]\n %s = {\n", realm, limit, realm)
